@@ -44,10 +44,10 @@ RULES = {
         assumes='Vec::into_iter().map(f).collect::<Vec<_>>() applies f to every element in order (stated through the closure\'s own requires/ensures; the closure body itself IS verified)'),
     'H_extend_flat_map_be_bytes': dict(
         kind='H',
-        pattern='data.extend_x(slice.iter().flat_map(|x| x.to_bytes_be().to_vec()))',
-        replace='crate::hoist::extend_be_bytes(&mut data, slice)',
+        pattern='data.extend_x(slice.iter().flat_map($F))',
+        replace='crate::hoist::extend_concat(&mut data, &crate::hoist::slice_map(slice, $F))',
         why='FlatMap has no vstd model',
-        assumes='appends the 32-byte big-endian encodings of the slice elements, in order'),
+        assumes='extend(iter.flat_map(f)) appends f(x) for every element x in order (the closure body itself IS verified)'),
     # ---- fri/layer.rs
     'H_drain_query': dict(
         kind='H', pattern='queries.drain(0..1).collect()', replace='crate::hoist::drain_first(queries)',
@@ -108,22 +108,22 @@ RULES = {
         assumes='appends Felt::from(x) for every element x of Vec::<usize>::from(dynamic_params.clone()), in order'),
     'H_hash_segments': dict(
         kind='H',
-        pattern='hash_data.extend_x(self.segments.iter().flat_map(|s| vec![s.begin_addr, s.stop_ptr]));',
-        replace='hoisted_extend_segments(&mut hash_data, &self.segments);',
+        pattern='hash_data.extend_x(self.segments.iter().flat_map($F));',
+        replace='crate::hoist::extend_concat(&mut hash_data, &crate::hoist::slice_map(&self.segments, $F));',
         why='FlatMap has no vstd model',
-        assumes='appends begin_addr, stop_ptr of every segment, in order'),
+        assumes='extend(iter.flat_map(f)) appends f(x) for every element x in order (the closure body itself IS verified)'),
     'H_hash_headers': dict(
         kind='H',
-        pattern='hash_data.extend_x( self.continuous_page_headers.iter().flat_map(|h| vec![h.start_address, h.size, h.hash]), );',
-        replace='hoisted_extend_headers(&mut hash_data, &self.continuous_page_headers);',
+        pattern='hash_data.extend_x( self.continuous_page_headers.iter().flat_map($F), );',
+        replace='crate::hoist::extend_concat(&mut hash_data, &crate::hoist::slice_map(&self.continuous_page_headers, $F));',
         why='FlatMap has no vstd model',
-        assumes='appends start_address, size, hash of every continuous page header, in order'),
+        assumes='extend(iter.flat_map(f)) appends f(x) for every element x in order (the closure body itself IS verified)'),
     # ---- air/layout/*/mod.rs (verify_public_input)
     'H_flatten_main_page': dict(
         kind='H',
-        pattern='public_input.main_page.iter().flat_map(|v| vec![v.address, v.value]).collect::<Vec<Felt>>()',
-        replace='crate::swiftness_air::layout::hoisted_flatten_page(&public_input.main_page)',
-        why='FlatMap has no vstd model', assumes='yields address_0, value_0, address_1, value_1, ... in order'),
+        pattern='public_input.main_page.iter().flat_map($F).collect::<Vec<Felt>>()',
+        replace='crate::hoist::collect_concat(&crate::hoist::slice_map(&public_input.main_page.0, $F))',
+        why='FlatMap has no vstd model', assumes='iter().flat_map(f).collect() concatenates f(x) for every element x in order (closure body verified); `.iter()` through the Deref impl of Page is the iteration of field 0'),
     'H_program_cells': dict(
         kind='H',
         pattern='memory.iter().skip($A).step_by(2).take($B).collect()',
